@@ -119,6 +119,52 @@ def serve (codec : String → Codec) (cfg : Cfg) (r : Request) : Outcome :=
     | none => .rejected Compression.rejectStatus               -- reader constructor failed
     | some s => .handled (limitRead cfg.limit s)                -- MaxBytesReader over the decoded stream
 
+/-! ## `WithDecoder` and process-level state -/
+
+/-- a server as `ToServer` builds it: effective settings + the decoders registered with `WithDecoder`
+(header name ↦ an identifier of the caller's decoder; a Go map, so names are unique) -/
+structure Server extends Cfg where
+  custom : List (String × String)
+
+/-- the library name under which a caller-supplied decoder is looked up in the codec family -/
+def customLib (id : String) : String := "custom:" ++ id
+
+/-- `d.decoders` after `for key, dec := range decoders { d.decoders[key] = dec }`: a custom decoder overrides
+whatever the enable loop stored under that name, and is present whether or not the name is listed -/
+def decoderFor (s : Server) (name : String) : Option Entry :=
+  match assoc s.custom name with
+  | some id => some (.lib (customLib id))
+  | none => assoc (buildEnabled s.enabled) name
+
+/-- `serve` with custom decoders (same wrappers, same dispatch) -/
+def serveS (codec : String → Codec) (s : Server) (r : Request) : Outcome :=
+  let outer := if Compression.outerLimitOnWire then limitRead s.limit r.wire else r.wire
+  match decoderFor s r.encoding with
+  | none => .rejected Compression.rejectStatus
+  | some .nilFunc => .panicked
+  | some .identity => .handled outer
+  | some (.lib l) =>
+    match (codec l).dec outer with
+    | none => .rejected Compression.rejectStatus
+    | some st => .handled (limitRead s.limit st)
+
+/-- What earlier server constructions have written into the package-level `availableDecoders`.
+The code as it is only reads that map (`Compression.availableDecodersOnlyRead`, checked by the translator over
+the whole package), so this stays empty; if it were written (aliasing `enabled`/`d.decoders` with the global),
+the custom entries of one server would show through every later lookup of `availableDecoders[name]`. -/
+structure Proc where
+  overrides : List (String × String)
+deriving DecidableEq, Repr
+
+def Proc.clean : Proc := ⟨[]⟩
+
+def Proc.construct (p : Proc) (s : Server) : Proc :=
+  if Compression.availableDecodersOnlyRead then p else ⟨s.custom ++ p.overrides⟩
+
+/-- serving inside a process: polluted global entries are seen for every name the server enables -/
+def serveP (p : Proc) (codec : String → Codec) (s : Server) (r : Request) : Outcome :=
+  serveS codec { s with custom := s.custom ++ p.overrides.filter (fun kv => s.enabled.contains kv.1) } r
+
 /-- `configcompression.Type.IsCompressed` -/
 def isCompressed (t : String) : Bool := !(Compression.uncompressedTypes.contains t)
 
@@ -143,15 +189,16 @@ structure Exchange where
                                -- (or the raw body when there is no encoding); `none` for hostile streams
   wireLen : Nat
   outcome : Outcome
+  custom : List String         -- names this server registered with `WithDecoder`
 
 /-- names for which some decoder exists at all (a listed but unknown name enables nothing) -/
 def decodable (name : String) : Bool :=
   availHas name || (assoc Compression.aliases name).isSome
 
 /-- is the request's encoding one the handler must get to see decoded?  No encoding: always (the property
-says such a request passes through untouched); otherwise: listed and decodable. -/
+says such a request passes through untouched); otherwise: registered with `WithDecoder` by THIS server, or listed and decodable. -/
 def Exchange.on (x : Exchange) : Bool :=
-  x.encoding == "" || (x.enabled.contains x.encoding && decodable x.encoding)
+  x.encoding == "" || x.custom.contains x.encoding || (x.enabled.contains x.encoding && decodable x.encoding)
 
 /-- Executable check of the property's clauses on one exchange, independent of `serve`;
 `none` = fine, `some sig` = violated, with a structural signature. -/
